@@ -1129,3 +1129,198 @@ func (ex *Exec) frameFormula(name string, cur *Term) *Term {
 	}
 	return Forall([]*Term{r}, Or(append(allowed, Eq(sel, Select(ini, r)))...))
 }
+
+// ---------- field-level write sets ----------
+//
+// For every memory array M$T: which struct fields (struct key, field index) a function can
+// store to (transitively), or `any` when it stores through a pointer of unknown origin.  A cell
+// whose address ends in field i of struct K can only be written by a store through
+// FieldAddr(K, i), by a store of an enclosing struct value, or through a pointer to that cell
+// that was passed around (counted as `any`): Go's type safety, no unsafe code in scope except
+// the wipe helpers, which have explicit `modifies` clauses.
+
+type fieldSet struct {
+	any    bool
+	fields map[string]bool
+}
+
+type fieldWrites map[string]*fieldSet
+
+func (fw fieldWrites) get(arr string) *fieldSet {
+	fs := fw[arr]
+	if fs == nil {
+		fs = &fieldSet{fields: map[string]bool{}}
+		fw[arr] = fs
+	}
+	return fs
+}
+
+func (fw fieldWrites) merge(o fieldWrites) {
+	for n, s := range o {
+		d := fw.get(n)
+		if s.any {
+			d.any = true
+		}
+		for k := range s.fields {
+			d.fields[k] = true
+		}
+	}
+}
+
+func (fw fieldWrites) all() {
+	fw.get("*").any = true
+}
+
+// leafCells records the cells written by a store of a value of type T at an address whose last
+// path component is field (K, i) (K == "" for an address of unknown shape).
+func (fw fieldWrites) leafCells(T types.Type, K string, i int) {
+	switch u := T.Underlying().(type) {
+	case *types.Struct:
+		if elemTypeKeys[typeKey(T)] {
+			// may also live as a whole value inside an element array; the M$ cells are per field
+		}
+		si := structInfo(T)
+		for j, f := range si.Fields {
+			fw.leafCells(f.T, si.Key, j)
+		}
+		_ = u
+	case *types.Array:
+		// element arrays are tracked by type only
+	default:
+		fs := fw.get(memName(T))
+		if K == "" {
+			fs.any = true
+		} else {
+			fs.fields[fmt.Sprintf("%s#%d", K, i)] = true
+		}
+	}
+}
+
+var fieldWritesCache = map[*ssa.Function]fieldWrites{}
+
+func funcFieldWrites(fn *ssa.Function, visiting map[*ssa.Function]bool) fieldWrites {
+	if r, ok := fieldWritesCache[fn]; ok {
+		return r
+	}
+	out := fieldWrites{}
+	if visiting[fn] {
+		return out
+	}
+	visiting[fn] = true
+	sp := lookupSpec(fn)
+	switch {
+	case sp != nil && sp.HasModifies && !sp.ModAny:
+		out.merge(specFieldWrites(sp, fn))
+	case sp != nil && sp.ModAny && (fn.Blocks == nil || !inScope(fn)):
+		out.all()
+	case fn.Blocks == nil:
+		// external without a contract: writes only through slice arguments (element arrays)
+	default:
+		for _, b := range fn.Blocks {
+			for _, insn := range b.Instrs {
+				switch x := insn.(type) {
+				case *ssa.Store:
+					switch a := x.Addr.(type) {
+					case *ssa.FieldAddr:
+						sT := a.X.Type().Underlying().(*types.Pointer).Elem()
+						out.leafCells(x.Val.Type(), structInfo(sT).Key, a.Field)
+					case *ssa.Alloc:
+						// a fresh object of this activation
+					case *ssa.IndexAddr:
+						// element of an array object (A$ arrays)
+						if _, isS := x.Val.Type().Underlying().(*types.Struct); !isS {
+							// scalar element pointer: may denote an M$ cell only through element-pointer
+							// dispatch, which goes to the A$ array
+						}
+					default:
+						out.leafCells(x.Val.Type(), "", 0)
+					}
+				case ssa.CallInstruction:
+					out.merge(callFieldWrites(x.Common(), visiting))
+				}
+			}
+		}
+	}
+	delete(visiting, fn)
+	if len(visiting) == 0 {
+		fieldWritesCache[fn] = out
+	}
+	return out
+}
+
+func specFieldWrites(sp *FuncSpec, fn *ssa.Function) fieldWrites {
+	out := fieldWrites{}
+	ex := NewExec(fn)
+	var args []*Term
+	for i, p := range fn.Params {
+		args = append(args, Var(fmt.Sprintf("dummy$%d", i), sortOf(p.Type())))
+	}
+	st := NewState("dummy")
+	env := ex.specEnv(nil, fn, sp, args, st, st)
+	for _, m := range sp.Modifies {
+		func() {
+			defer func() {
+				if r := recover(); r != nil {
+					out.all()
+				}
+			}()
+			for _, l := range env.locsOf(m) {
+				if !strings.HasPrefix(l.arr, "M$") {
+					continue
+				}
+				fs := out.get(l.arr)
+				if l.addr.Op == "mkref" && l.addr.Args[1].Op == "pfld" {
+					if k, ok := l.addr.Args[1].Args[1].IntVal(); ok {
+						fs.fields[fmt.Sprintf("%s#%d", l.addr.Args[1].Name, k)] = true
+						continue
+					}
+				}
+				fs.any = true
+			}
+		}()
+	}
+	return out
+}
+
+func callFieldWrites(c *ssa.CallCommon, visiting map[*ssa.Function]bool) fieldWrites {
+	out := fieldWrites{}
+	if c.IsInvoke() {
+		impls := closedImpls(c.Value.Type())
+		if impls == nil {
+			if sp := lookupIfaceSpec(c.Value.Type(), c.Method.Name()); sp != nil && sp.ModAny {
+				out.all()
+			}
+			return out
+		}
+		for _, it := range impls {
+			if fn := prog.SSA.LookupMethod(it, c.Method.Pkg(), c.Method.Name()); fn != nil {
+				out.merge(funcFieldWrites(fn, visiting))
+			}
+		}
+		return out
+	}
+	if _, ok := c.Value.(*ssa.Builtin); ok {
+		return out
+	}
+	if fn := c.StaticCallee(); fn != nil {
+		if inScope(fn) {
+			return funcFieldWrites(fn, visiting)
+		}
+		if sp := lookupSpec(fn); sp != nil {
+			if sp.ModAny {
+				out.all()
+				return out
+			}
+			if sp.HasModifies {
+				return specFieldWrites(sp, fn)
+			}
+		}
+		return out
+	}
+	for _, f := range funcValueCandidates(c.Signature()) {
+		out.merge(funcFieldWrites(f, visiting))
+	}
+	return out
+}
+
+var havocFieldWrites = map[string]fieldWrites{}
